@@ -58,12 +58,19 @@ class Rule:
                 doc["examples"] = []
 
             # strip final new lines:
-            for idx, desc_i in enumerate(doc["description"]):
-                doc["description"][idx] = desc_i.strip()
-            for idx, ex_i in enumerate(doc["examples"]):
-                doc["examples"][idx] = ex_i.strip()
+            for key in ("description", "examples"):
+                for idx, item in enumerate(doc[key]):
+                    if not isinstance(item, str):
+                        raise MalformedRuleSpec(
+                            f"Rule doc {key} must be strings, but found: {item!r}."
+                        )
+                    doc[key][idx] = item.strip()
 
         cast = copy.copy(spec.get("cast"))  # re-keyed in-place below
+        if cast is not None and not isinstance(cast, dict):
+            raise MalformedRuleSpec(
+                f"Rule cast must be a mapping of type names, but found: {cast!r}."
+            )
         for cast_from in list((cast or {}).keys()):
             cast_to = cast.pop(cast_from)
             try:
